@@ -94,8 +94,8 @@ pub fn race_child(seed: &str) -> ! {
             let rot = ((k as u64 * 37 + seed * 11) % 128) as u8;
             for round in 0..4u8 {
                 for i in 0..15u8 {
-                    let s = 0xF1 + ((i + k as u8 + round) % 15);
-                    classify_ok(s, (k as u8 * 3 + i) % 128, i)?;
+                    let s = 0xF1 + ((i as u32 + k as u32 + round as u32) % 15) as u8;
+                    classify_ok(s, ((k as u32 * 3 + i as u32) % 128) as u8, i)?;
                     n += 1;
                 }
             }
@@ -108,10 +108,11 @@ pub fn race_child(seed: &str) -> ! {
                     n += 1;
                 }
                 for j in 0..64u16 {
-                    let c = ((k as u16 + j) % 16) as u8;
-                    let number = (j * 257 + k as u16 * 8191 + round as u16) % 16384;
-                    let value = (j * 129 + round as u16 * 61 + k as u16) % 16384;
-                    encode_ok(c, number, value, (j + k as u16) % 2 == 0)?;
+                    let (j, k32) = (j as u32, k as u32);
+                    let c = ((k32 + j) % 16) as u8;
+                    let number = ((j * 257 + k32 * 8191 + round) % 16384) as u16;
+                    let value = ((j * 129 + round * 61 + k32) % 16384) as u16;
+                    encode_ok(c, number, value, (j + k32) % 2 == 0)?;
                     n += 1;
                 }
             }
